@@ -301,6 +301,10 @@ func genC13(seed uint64, tier string) *Scenario {
 		}
 	}
 	set[100000] = true // the default
+	// very large limits: nothing in the size arithmetic (doubling, reserve, comparisons) may wrap
+	for _, l := range []int{1<<31 - 1, 1 << 31, 1 << 62, 1<<63 - 1} {
+		set[l] = true
+	}
 	for l := range set {
 		sc.Limits = append(sc.Limits, l)
 	}
